@@ -45,7 +45,7 @@ EXPLANATION = ("Theorem: the STV/IRV/SequentialRCV/Alaska count loop never runs 
                "monotone status, ValueError only with tiebreak=None and a tie across the seat boundary (reference "
                "count), no other exception, 10 s alarm for non-termination.")
 
-N_QUICK, N_THOROUGH = 2400, 120000
+N_QUICK, N_THOROUGH = 2400, 28800
 
 ALL_RULES = ["STV", "IRV", "SequentialRCV", "Plurality", "SNTV", "Borda", "TopTwo", "Alaska", "DominatingSets",
              "CondoBorda", "RandomDictator", "BoostedRandomDictator", "PluralityVeto", "Rating", "Limited",
@@ -53,7 +53,42 @@ ALL_RULES = ["STV", "IRV", "SequentialRCV", "Plurality", "SNTV", "Borda", "TopTw
 TIES_OK = ("Plurality", "SNTV", "Borda", "TopTwo", "RandomDictator", "BoostedRandomDictator")
 
 
+def partial_tiebreak_case(rng):
+    """a tie of three or more candidates across the seat boundary that the secondary scores resolve only partly
+    (top of the tied group separated, a tie further down): the documented fallback is a random order of what is left"""
+    for _ in range(300):
+        rule = rng.choice(["Plurality", "SNTV", "Borda"])
+        tb = "first_place" if rule == "Borda" else "borda"
+        spec = gen.gen_ranked_spec(rng, nmin=3, nmax=5, ties=False, partial=False, weights=rng.choice(["unit", "int"]),
+                                   bmin=3, bmax=8)
+        n = len(spec["c"])
+        fpv = {c: Fraction(0) for c in spec["c"]}
+        borda = {c: Fraction(0) for c in spec["c"]}
+        for b in spec["b"]:
+            w = Fraction(b["w"])
+            fpv[b["r"][0][0]] += w
+            for pos, s0 in enumerate(b["r"]):
+                borda[s0[0]] += w * (n - pos)
+        prim, sec = (borda, fpv) if rule == "Borda" else (fpv, borda)
+        for m in range(2, n):
+            vals = sorted(prim.values(), reverse=True)
+            if vals[m - 1] != vals[m]:
+                continue
+            G = [c for c in spec["c"] if prim[c] == vals[m - 1]]
+            above = sum(1 for v in vals if v > vals[m - 1])
+            if len(G) < 3 or m - above < 2:
+                continue
+            sv = sorted((sec[c] for c in G), reverse=True)
+            if sv[0] > sv[1] and any(sv[i] == sv[i + 1] for i in range(1, len(sv) - 1)):
+                return {"rule": rule, "cfg": {"m": m, "tiebreak": tb}, "spec": spec, "rs": rng.randint(0, 10 ** 9)}
+    return None
+
+
 def gen_case(rng, rule=None):
+    if rule is None and rng.random() < 0.03:
+        c = partial_tiebreak_case(rng)
+        if c is not None:
+            return c
     rule = rule or rng.choice(ALL_RULES + ["STV", "STV", "SequentialRCV", "Alaska"])
     cfg = {}
     eng = rng.random()
